@@ -170,8 +170,9 @@ defjvp(
 )
 defjvp(
     anp.linspace,
-    lambda g, ans, start, stop, *args, **kwargs: anp.linspace(g, 0, *args, **kwargs),
-    lambda g, ans, start, stop, *args, **kwargs: anp.linspace(0, g, *args, **kwargs),
+    # the zero endpoint keeps the other endpoint's shape so that the tangent broadcasts like the primal
+    lambda g, ans, start, stop, *args, **kwargs: anp.linspace(g, anp.zeros(anp.shape(stop)), *args, **kwargs),
+    lambda g, ans, start, stop, *args, **kwargs: anp.linspace(anp.zeros(anp.shape(start)), g, *args, **kwargs),
 )
 
 
